@@ -8,6 +8,9 @@ Open Scope R_scope.
 Lemma IZRn n : IZR (Z.of_nat n) = INR n.
 Proof. symmetry. apply INR_IZR_INZ. Qed.
 
+Lemma abs_nat_opp z : Z.abs_nat (- z) = Z.abs_nat z.
+Proof. destruct z; reflexivity. Qed.
+
 (* ---------------- facts about the definition ---------------- *)
 Lemma Plm_lt l m s c : (l < m)%nat -> Plm l m s c = 0.
 Proof.
@@ -39,11 +42,11 @@ Proof. reflexivity. Qed.
 
 (* ---------------- buffer primitives ---------------- *)
 Lemma rd_upd_same b i k v : rd (upd b i k v) i k = v.
-Proof. unfold rd, upd. rewrite Z.eqb_refl. destruct (Z.eqb k 0); reflexivity. Qed.
+Proof. unfold rd, upd. rewrite (Z.eqb_refl i). destruct (Z.eqb k 0); reflexivity. Qed.
 Lemma rd_upd_col b i v : rd (upd b i 1 v) i 0 = rd b i 0.
-Proof. unfold rd, upd. rewrite Z.eqb_refl. reflexivity. Qed.
+Proof. unfold rd, upd. rewrite (Z.eqb_refl i). cbn [Z.eqb fst snd]. reflexivity. Qed.
 Lemma rd_upd_col' b i v : rd (upd b i 0 v) i 1 = rd b i 1.
-Proof. unfold rd, upd. rewrite Z.eqb_refl. reflexivity. Qed.
+Proof. unfold rd, upd. rewrite (Z.eqb_refl i). cbn [Z.eqb fst snd]. reflexivity. Qed.
 Lemma upd_other b i k v z : z <> i -> upd b i k v z = b z.
 Proof. intros H. unfold upd. destruct (Z.eqb_spec z i); [contradiction|reflexivity]. Qed.
 
@@ -75,7 +78,7 @@ Proof.
       - unfold g_b_k, rd. cbn [Z.eqb]. rewrite Hp by lia. rewrite !IZRn. field. exact Hne.
       - assert (m = l) by lia. subst m.
         destruct l as [|l']; [cbn [Ppair snd]|rewrite snd_Ppair_S, Plm_lt by lia]; field; exact Hne. }
-    rewrite Esf. field. split; [exact Hne|]. replace (INR (S l) - 1 - INR m + 1) with (INR (S l) - INR m) by ring. exact Hne. }
+    rewrite Esf. field. exact Hne. }
   assert (Hb2 : b2 (Z.of_nat m) = (Plm (S l) m s c, Plm l m s c)).
   { unfold b2, b1, upd. rewrite !Z.eqb_refl. cbn [Z.eqb fst snd]. rewrite Enew. unfold rd. cbn [Z.eqb]. rewrite Hc. reflexivity. }
   assert (Hoth : forall z, z <> Z.of_nat m -> b2 z = b z).
@@ -84,13 +87,139 @@ Proof.
   exists b2. split; [|split; assumption].
   destruct (Z.eqb_spec (Z.of_nat m) 0) as [E0|N0].
   - assert (m = 0)%nat by lia. subst m. cbn [Nat.eqb]. rewrite Erd. f_equal; [f_equal|].
-    + cbn [Dn]. rewrite IZRn. change (INR 0) with 0. f_equal. ring.
+    + cbn [Dn]. rewrite IZRn, Rmult_1_l. change (INR 0) with 0. f_equal. ring.
     + f_equal. unfold Yraw, g_fac_sph, az. cbn [Z.abs_nat Z.ltb Z.compare Nlm]. rewrite IZRn. ring.
   - destruct m as [|m']; [lia|]. cbn [Nat.eqb]. rewrite Erd, (Hf ltac:(lia)). f_equal; [f_equal|].
     + cbn [Dn]. rewrite !IZRn. reflexivity.
-    + unfold Yraw, g_fac_sph, az. rewrite Zabs2Nat.abs_nat_spec, Z.abs_opp, <- Zabs2Nat.abs_nat_spec, !Zabs2Nat.id.
+    + unfold Yraw, g_fac_sph, az. rewrite abs_nat_opp, !Zabs2Nat.id.
       destruct (Z.ltb_spec 0 (Z.of_nat (S m'))) as [_|]; [|lia].
       destruct (Z.ltb_spec 0 (- Z.of_nat (S m'))) as [|_]; [lia|].
       destruct (Z.ltb_spec (- Z.of_nat (S m')) 0) as [_|]; [|lia].
       rewrite Z.opp_involutive. cbn [Nlm]. rewrite !IZRn. f_equal; [|f_equal]; unfold Rdiv; ring.
+Qed.
+
+(* ---------------- one iteration, m_ord = l_deg (diagonal recursion) ---------------- *)
+Lemma step_diag l s c th b f :
+  snd (b (Z.of_nat l)) = Plm l l s c ->
+  f = Dn (S l) (S l) ->
+  exists b',
+    g_step (Z.of_nat (S l)) (Z.of_nat (S l)) s c th b f =
+      (b', Dn (S l) (S (S l)), [Yraw (S l) (Z.of_nat (S l)) th s c; Yraw (S l) (- Z.of_nat (S l)) th s c])
+    /\ fst (b' (Z.of_nat (S l))) = Plm (S l) (S l) s c
+    /\ forall z, z <> Z.of_nat (S l) -> b' z = b z.
+Proof.
+  intros Hp Hf. unfold g_step. rewrite Z.eqb_refl.
+  replace (Z.of_nat (S l) - 1)%Z with (Z.of_nat l) by lia.
+  set (new := rd b (Z.of_nat l) 1 * (2 * (IZR (Z.of_nat (S l)) - 1) + 1) * s).
+  set (b1 := upd b (Z.of_nat (S l)) 0 new).
+  assert (Enew : new = Plm (S l) (S l) s c).
+  { unfold new, rd. cbn [Z.eqb]. rewrite Hp, !Plm_diag, IZRn, S_INR. cbn [Pdiag]. ring. }
+  assert (Erd : rd b1 (Z.of_nat (S l)) 0 = Plm (S l) (S l) s c) by (unfold b1; rewrite rd_upd_same; exact Enew).
+  exists b1. split; [|split].
+  - destruct (Z.eqb_spec (Z.of_nat (S l)) 0) as [E0|_]; [lia|]. rewrite Erd, Hf. f_equal; [f_equal|].
+    + cbn [Dn]. rewrite !IZRn. reflexivity.
+    + unfold Yraw, g_fac_sph, az. rewrite abs_nat_opp, !Zabs2Nat.id.
+      destruct (Z.ltb_spec 0 (Z.of_nat (S l))) as [_|]; [|lia].
+      destruct (Z.ltb_spec 0 (- Z.of_nat (S l))) as [|_]; [lia|].
+      destruct (Z.ltb_spec (- Z.of_nat (S l)) 0) as [_|]; [|lia].
+      rewrite Z.opp_involutive. cbn [Nlm]. rewrite !IZRn. f_equal; [|f_equal]; unfold Rdiv; ring.
+  - unfold b1, upd. rewrite Z.eqb_refl. cbn [Z.eqb fst]. exact Enew.
+  - intros z Hz. unfold b1. apply upd_other. exact Hz.
+Qed.
+
+(* state of the Legendre buffer after degree n has been completed *)
+Definition dinv (n : nat) (s c : R) (b : buf) : Prop :=
+  (forall j, (j <= n)%nat -> fst (b (Z.of_nat j)) = Plm n j s c) /\
+  (forall j, (j < n)%nat -> snd (b (Z.of_nat j)) = snd (Ppair n j s c)).
+
+Definition pm_rows (l : nat) (th s c : R) (x : nat) : list R :=
+  [Yraw l (Z.of_nat x) th s c; Yraw l (- Z.of_nat x) th s c].
+
+Lemma inner_run l s c th : forall k m b f acc,
+  (m + k = S (S l))%nat -> (1 <= m)%nat ->
+  (forall j, (j < m)%nat -> fst (b (Z.of_nat j)) = Plm (S l) j s c /\ ((j <= l)%nat -> snd (b (Z.of_nat j)) = Plm l j s c)) ->
+  (forall j, (m <= j <= l)%nat -> fst (b (Z.of_nat j)) = Plm l j s c /\ ((j < l)%nat -> snd (b (Z.of_nat j)) = snd (Ppair l j s c))) ->
+  f = Dn (S l) m ->
+  exists b' f',
+    sph_inner (S l) k m s c th b f acc = (b', f', acc ++ flat_map (pm_rows (S l) th s c) (seq m k)) /\ dinv (S l) s c b'.
+Proof.
+  induction k as [|k IH]; intros m b f acc Hmk Hm1 Hdone Htodo Hf.
+  - cbn [sph_inner seq flat_map]. rewrite app_nil_r. exists b, f. split; [reflexivity|]. split.
+    + intros j Hj. apply Hdone. lia.
+    + intros j Hj. rewrite snd_Ppair_S. apply Hdone; lia.
+  - cbn [sph_inner seq flat_map].
+    destruct (Nat.eq_dec m (S l)) as [E|N].
+    + subst m. destruct (step_diag l s c th b f) as (b' & Hs & Hd & Ho); [apply Hdone; lia|exact Hf|].
+      rewrite Hs.
+      destruct (IH (S (S l)) b' (Dn (S l) (S (S l))) (acc ++ pm_rows (S l) th s c (S l))) as (b'' & f'' & Hr & Hinv); try lia; try reflexivity.
+      * intros j Hj. destruct (Nat.eq_dec j (S l)) as [->|Nj].
+        -- split; [exact Hd|lia].
+        -- rewrite Ho by lia. apply Hdone. lia.
+      * exists b'', f''. split; [|exact Hinv]. unfold pm_rows at 1 in Hr. rewrite Hr, <- app_assoc. reflexivity.
+    + destruct (Htodo m ltac:(lia)) as [Hc Hp].
+      destruct (step_nd l m s c th b f) as (b' & Hs & Hd & Ho); try assumption; try lia. { intros _. exact Hf. }
+      rewrite Hs. destruct (Nat.eqb_spec m 0) as [|_]; [lia|].
+      destruct (IH (S m) b' (Dn (S l) (S m)) (acc ++ pm_rows (S l) th s c m)) as (b'' & f'' & Hr & Hinv); try lia; try reflexivity.
+      * intros j Hj. destruct (Nat.eq_dec j m) as [->|Nj].
+        -- rewrite Hd. cbn [fst snd]. split; [reflexivity|intros _; reflexivity].
+        -- rewrite Ho by lia. apply Hdone. lia.
+      * intros j Hj. rewrite Ho by lia. apply Htodo. lia.
+      * exists b'', f''. split; [|exact Hinv]. unfold pm_rows at 1 in Hr. rewrite Hr, <- app_assoc. reflexivity.
+Qed.
+
+Lemma sph_inner_S l k m s c th b f acc :
+  sph_inner l (S k) m s c th b f acc =
+  let '(b', f', outs) := g_step (Z.of_nat l) (Z.of_nat m) s c th b f in sph_inner l k (S m) s c th b' f' (acc ++ outs).
+Proof. reflexivity. Qed.
+
+(* one complete degree *)
+Lemma degree_run l s c th b f acc :
+  dinv l s c b ->
+  exists b' f',
+    sph_inner (S l) (S (S l)) 0 s c th b f acc =
+      (b', f', acc ++ Yraw (S l) 0 th s c :: flat_map (pm_rows (S l) th s c) (seq 1 (S l))) /\ dinv (S l) s c b'.
+Proof.
+  intros [Hc Hp]. rewrite sph_inner_S.
+  destruct (step_nd l 0 s c th b f) as (b' & Hs & Hd & Ho); try lia. { apply Hc. lia. } { intros H. apply Hp. exact H. }
+  change (Z.of_nat 0) with 0%Z in *. rewrite Hs. cbn [Nat.eqb].
+  destruct (inner_run l s c th (S l) 1 b' (Dn (S l) 1) (acc ++ [Yraw (S l) 0 th s c])) as (b'' & f'' & Hr & Hinv); try lia; try reflexivity.
+  - intros j Hj. assert (j = 0)%nat by lia. subst j. change (Z.of_nat 0) with 0%Z. rewrite Hd. cbn [fst snd]. split; [reflexivity|intros _; reflexivity].
+  - intros j Hj. rewrite Ho by lia. split; [apply Hc; lia|intros H; apply Hp; exact H].
+  - exists b'', f''. split; [|exact Hinv]. rewrite Hr, <- app_assoc. reflexivity.
+Qed.
+
+Definition raw_rows (l : nat) (th s c : R) : list R := Yraw l 0 th s c :: flat_map (pm_rows l th s c) (seq 1 l).
+
+Lemma outer_run s c th : forall n l b f acc,
+  dinv l s c b ->
+  sph_outer n (S l) s c th b f acc = acc ++ flat_map (fun d => raw_rows d th s c) (seq (S l) n).
+Proof.
+  induction n as [|n IH]; intros l b f acc Hinv.
+  - cbn [sph_outer seq flat_map]. rewrite app_nil_r. reflexivity.
+  - cbn [sph_outer seq flat_map].
+    destruct (degree_run l s c th b f acc Hinv) as (b' & f' & Hr & Hinv'). rewrite Hr.
+    rewrite (IH (S l) b' f' _ Hinv'). unfold raw_rows at 2. rewrite <- app_assoc. reflexivity.
+Qed.
+
+Lemma map_flat_map {A B C} (f : B -> C) (g : A -> list B) (l : list A) :
+  map f (flat_map g l) = flat_map (fun x => map f (g x)) l.
+Proof. induction l as [|a l IH]; [reflexivity|]. cbn [flat_map]. rewrite map_app, IH. reflexivity. Qed.
+
+Lemma raw_rows_spec l th ph : raw_rows l th (sin ph) (cos ph) = spec_rows l th ph.
+Proof.
+  unfold raw_rows, spec_rows, m_values. cbn [map]. f_equal. rewrite map_flat_map. reflexivity.
+Qed.
+
+(* MAIN: for every l_max the loop returns the list of Y_lm of the definition, degree by degree, m = 0, 1, -1, ..., l, -l *)
+Theorem sph_model_spec L th ph : sph_model L th ph = spec_list L th ph.
+Proof.
+  unfold sph_model, spec_list, g_sin_phi, g_cos_phi.
+  rewrite (outer_run (sin ph) (cos ph) th L 0 init_buf 0 [g_y00]).
+  - cbn [seq flat_map].
+    assert (E0 : spec_rows 0 th ph = [g_y00]).
+    { unfold spec_rows, m_values. cbn [seq flat_map map]. f_equal. unfold Yspec, Flm, Nlm, Plm, az, g_y00, g_fac_sph. cbn. ring. }
+    rewrite E0. f_equal. apply flat_map_ext. intros d. apply raw_rows_spec.
+  - split.
+    + intros j Hj. assert (j = 0)%nat by lia. subst j. reflexivity.
+    + intros j Hj. lia.
 Qed.
